@@ -26,6 +26,7 @@ def run(ctx, names):
         for k in COV_KEYS:
             ctx.res.cov.pop(k, None)
         before = set(ctx.res.cov.keys())
+        saved = dict(ctx.res.cov)
         try:
             d = mod.correspond(ctx) or []
         except vlib.CoqEvalError as e:
@@ -34,6 +35,14 @@ def run(ctx, names):
             x.setdefault("extension", nm)
         dis += d
         cov = {k: ctx.res.cov.pop(k) for k in list(ctx.res.cov.keys()) if k in COV_KEYS or k not in before}
+        # keys the extension shares with the main check (values_compared, bit_identical, ...): the extension's value goes
+        # to its own record, the main one is restored
+        for k in before:
+            if k in COV_KEYS or k == "extensions":
+                continue
+            if k in saved and ctx.res.cov.get(k) is not saved[k] and ctx.res.cov.get(k) != saved[k]:
+                cov[k] = ctx.res.cov.get(k)
+                ctx.res.cov[k] = saved[k]
         exts[nm] = cov
         for a in getattr(mod, "ASSUMPTIONS", []):
             if a not in ctx.res.assumptions:
@@ -46,7 +55,9 @@ def run(ctx, names):
         for k in ("evaluations", "distinct_nontrivial"):
             if isinstance(cov.get(k), int):
                 ctx.res.cov[k] = ctx.res.cov.get(k, 0) + cov[k]
-    ctx.res.cov["extensions"] = exts
+    allext = dict(main.get("extensions", {}))
+    allext.update(exts)
+    ctx.res.cov["extensions"] = allext
     return dis
 
 
